@@ -329,6 +329,11 @@ pub trait Allocator<VM: VMBinding>: Downcast {
                 .allow_oom_call
             {
                 self.out_of_memory(tls);
+            } else {
+                // We must not call `Collection::out_of_memory`, but this request has been given
+                // up all the same: record it, so that the slow path returns null instead of
+                // retrying the request for ever.
+                self.get_context().thrown_oom.store(true, Ordering::Relaxed);
             }
             return true;
         }
@@ -569,7 +574,9 @@ pub trait Allocator<VM: VMBinding>: Downcast {
                 if fail_with_oom {
                     // Note that we throw a `HeapOutOfMemory` error here and return a null ptr back to the VM
                     trace!("Throw HeapOutOfMemory!");
-                    self.out_of_memory(tls);
+                    if self.get_context().get_alloc_options().allow_oom_call {
+                        self.out_of_memory(tls);
+                    }
                     reset_allocation_state(self);
                     self.get_context()
                         .state
